@@ -33,7 +33,9 @@ def corpus():
         "render kind=progress s=10 f=5 d=3 pcount=7 dur=100000000000 period=10000000000 tty=1",
         "render kind=progress s=0 f=0 d=0 pcount=0 dur=0 period=0",
         "render kind=summary kind2=progress s=4 f=1 d=2 period=1000000000",
-    ]
+        # whole command lines: the summary that is displayed states the verdict the command exits with — also when what
+        # fails the run (a teardown, the setup) happens after or before the iterations
+    ] + __import__("vlib.props._plan", fromlist=["x"]).cli_corpus_for("C19")
 
 
 def generate(rng, tier):
@@ -63,9 +65,18 @@ def generate(rng, tier):
     return out
 
 
+def compare(rec):
+    if rec["case"].startswith("cli "):
+        from . import _plan
+        return _plan.cli_compare(rec)
+    if rec["model"] == "-":
+        return None
+    return None if rec["impl"] == rec["model"] else "model=%s impl=%s" % (rec["model"], rec["impl"])
+
+
 def nontrivial_key(rec):
     c = rec["case"]
-    if c == "tmpl":
+    if c == "tmpl" or c.startswith("cli "):
         return c
     kv = dict(t.split("=", 1) for t in c.split()[1:])
     nz = sum(1 for k in ("s", "f", "d") if kv.get(k, "0") != "0")
@@ -78,6 +89,9 @@ def distribution(recs):
     d = {"result": 0, "summary": 0, "progress": 0, "zero_iterations": 0, "with_dropped": 0, "tty": 0, "with_error": 0}
     for r in recs:
         if r["case"] == "tmpl":
+            continue
+        if r["case"].startswith("cli "):
+            d["command_lines"] = d.get("command_lines", 0) + 1
             continue
         kv = dict(t.split("=", 1) for t in r["case"].split()[1:])
         d[kv.get("kind2", kv.get("kind", "result")) if kv.get("kind2") else kv.get("kind", "result")] += 1
